@@ -111,10 +111,29 @@ def handle (op : String) (j : Json) : Except String Json := do
     let c ← content (← field j "content")
     let ls := contentLines c
     let s := commentStr ls
-    let model := Json.mkObj [("before", SL ls), ("str", S s), ("after", SL ls), ("str2", S s)]
+    -- optionally: the comment extended (in place / by append) after a rendering, rendered again
+    let ext? : Option Content ← if hasField j "extend" then (do
+        let e ← content (← field j "extend")
+        pure (some e)) else pure none
+    let model := match ext? with
+      | none => Json.mkObj [("before", SL ls), ("str", S s), ("after", SL ls), ("str2", S s)]
+      | some e =>
+        let s3 := commentStr (ls ++ contentLines e)
+        Json.mkObj [("before", SL ls), ("str", S s), ("after", SL ls), ("str2", S s), ("str3", S s3), ("str4", S s3)]
     let failed := if impl.isNull then [] else
       match (strListField impl "before", strField impl "str", strListField impl "after", strField impl "str2") with
-      | (.ok b, .ok s1, .ok a, .ok s2) => Spec.holdsC19_comment c s1 b a s2
+      | (.ok b, .ok s1, .ok a, .ok s2) =>
+        Spec.holdsC19_comment c s1 b a s2 ++
+        (match ext? with
+         | none => []
+         | some e =>
+           let want := Spec.commentSpec (ls ++ contentLines e)
+           (match strField impl "str3" with
+            | .ok s3 => if s3 = want then [] else ["extended-in-place-then-rendered"]
+            | _ => ["impl-error"]) ++
+           (match strField impl "str4" with
+            | .ok s4 => if s4 = want then [] else ["appended-then-rendered"]
+            | _ => ["impl-error"]))
       | _ => ["impl-error"]
     pure (Json.mkObj [("model", model), ("failed", clauses failed)])
   | "py.splitlines" =>
